@@ -1272,7 +1272,9 @@ fn distinct_from(rng: &mut Rng, pool: &[&str], n: usize) -> Vec<String> {
 }
 
 fn gen_cfg(rng: &mut Rng, validating_bias: bool) -> EmfCfg {
-    let trivial = rng.chance(2, 5);
+    // only `Emf::all_validations` (expressible for the trivial configuration) validates without debug
+    // assertions: make it more frequent there
+    let trivial = if validating_bias && !cfg!(debug_assertions) { rng.chance(7, 10) } else { rng.chance(2, 5) };
     let n_sets = rng.range(1, 3) as usize;
     let default_dims: Vec<Vec<String>> = (0..n_sets)
         .map(|_| {
@@ -1719,6 +1721,11 @@ fn shrink_case(c: &Case, property: &str, key: &str) -> Case {
             cur = cand;
         }
     }
+    // items again: a simpler configuration may have made more of them removable
+    let items = shrink_list(&cur.entry.items, |items| {
+        fails(&Case { cfg: cur.cfg.clone(), entry: GenEntry { items: items.to_vec(), sample_group: vec![] } })
+    });
+    cur.entry.items = items;
     // simplify values: metrics to a single small observation, strings to "s"
     for i in 0..cur.entry.items.len() {
         let mut cand = cur.clone();
